@@ -633,7 +633,11 @@ def _verbatim(repo, rep):
     # processing instructions other than <?python are re-assembled
     f = repo.func(PROG + "visit_processing_instruction")
     text = L.text(f.node)
-    rep.check("'<?' + node['name'] + node['text'] + '?>'" in text, "R03.4",
+    assembled = any(
+        isinstance(n, ast.BinOp) and src(L.inline_locals(f.node, n)).replace(
+            " ", "") == "'<?'+node['name']+node['text']+'?>'"
+        for n in ast.walk(f.node))
+    rep.check(assembled, "R03.4",
               f.qualname, "a foreign processing instruction is re-assembled "
               "from all of its captured parts", construct="pi",
               where=L.where(f))
